@@ -5,36 +5,36 @@ import "encoding/json"
 // FilterSpec describes one OIDC filter (one chain per filter, selected by the
 // request header x-verif-chain).
 type FilterSpec struct {
-	Name           string   `json:"name"`
-	Store          string   `json:"store"` // "memory" | "redis" | "redis2" (a second Redis URI)
-	Prefix         string   `json:"prefix"`
-	AccessFwd      bool     `json:"accessFwd"`
-	IDHeader       string   `json:"idHeader"`
-	IDPreamble     string   `json:"idPreamble"`
-	ATHeader       string   `json:"atHeader"`
-	ATPreamble     string   `json:"atPreamble"`
-	Logout         bool     `json:"logout"`
-	LogoutRedirect string   `json:"logoutRedirect"` // "" = take it from discovery (needs Discovery)
-	Abs            int      `json:"abs"`
-	Idle           int      `json:"idle"`
-	ClientID       string   `json:"clientId"`
-	ClientSecret   string   `json:"clientSecret"`
-	Scopes         []string `json:"scopes"`
-	AuthzQuery     string   `json:"authzQuery"` // raw own query of the authorization endpoint
-	Discovery      bool     `json:"discovery"`
-	Jwks           string   `json:"jwks"` // "static" (default) | "fetch"
-	IdpID          string   `json:"idp"`  // "" = idp "A"; "B" = a second provider (own endpoints)
-	Override       bool     `json:"override"` // configure through default_oidc_config + oidc_override instead of a plain oidc filter
-	ChainName      string   `json:"chainName"` // name of the chain in the configuration (default: the filter name; names need not be unique)
-	KeySet         string   `json:"keySet"`    // configured static key set: "" = k1+k2, "k3"
-	After          string   `json:"after"`     // a mock filter after the OIDC filter in the same chain: "" | "deny" | "allow"
-	SecretRef      string   `json:"secretRef"` // take the client secret from this Kubernetes Secret (driven by "secret" steps)
-	DiscoveryDoc   string   `json:"discoveryDoc"` // variant of the discovery document: "" | "pkcePlainOnly" | "noEndSession"
-	NoLogoutRedirect bool   `json:"noLogoutRedirect"` // logout configured without redirect_uri (taken from discovery)
+	Name                string   `json:"name"`
+	Store               string   `json:"store"` // "memory" | "redis" | "redis2" (a second Redis URI)
+	Prefix              string   `json:"prefix"`
+	AccessFwd           bool     `json:"accessFwd"`
+	IDHeader            string   `json:"idHeader"`
+	IDPreamble          string   `json:"idPreamble"`
+	ATHeader            string   `json:"atHeader"`
+	ATPreamble          string   `json:"atPreamble"`
+	Logout              bool     `json:"logout"`
+	LogoutRedirect      string   `json:"logoutRedirect"` // "" = take it from discovery (needs Discovery)
+	Abs                 int      `json:"abs"`
+	Idle                int      `json:"idle"`
+	ClientID            string   `json:"clientId"`
+	ClientSecret        string   `json:"clientSecret"`
+	Scopes              []string `json:"scopes"`
+	AuthzQuery          string   `json:"authzQuery"` // raw own query of the authorization endpoint
+	Discovery           bool     `json:"discovery"`
+	Jwks                string   `json:"jwks"`             // "static" (default) | "fetch"
+	IdpID               string   `json:"idp"`              // "" = idp "A"; "B" = a second provider (own endpoints)
+	Override            bool     `json:"override"`         // configure through default_oidc_config + oidc_override instead of a plain oidc filter
+	ChainName           string   `json:"chainName"`        // name of the chain in the configuration (default: the filter name; names need not be unique)
+	KeySet              string   `json:"keySet"`           // configured static key set: "" = k1+k2, "k3"
+	After               string   `json:"after"`            // a mock filter after the OIDC filter in the same chain: "" | "deny" | "allow"
+	SecretRef           string   `json:"secretRef"`        // take the client secret from this Kubernetes Secret (driven by "secret" steps)
+	DiscoveryDoc        string   `json:"discoveryDoc"`     // variant of the discovery document: "" | "pkcePlainOnly" | "noEndSession"
+	NoLogoutRedirect    bool     `json:"noLogoutRedirect"` // logout configured without redirect_uri (taken from discovery)
 	inheritedLogoutPath string
-	CallbackPort     string `json:"callbackPort"`   // "" | "443": the callback URI names the default port explicitly (requests still say Host: app.test)
-	SharedCallback   bool   `json:"sharedCallback"` // all such filters use one callback URI (https://app.test/shared/callback)
-	InheritLogout    bool   `json:"inheritLogout"`    // override-based filter without a logout section of its own: the default's applies
+	CallbackPort        string `json:"callbackPort"`   // "" | "443": the callback URI names the default port explicitly (requests still say Host: app.test)
+	SharedCallback      bool   `json:"sharedCallback"` // all such filters use one callback URI (https://app.test/shared/callback)
+	InheritLogout       bool   `json:"inheritLogout"`  // override-based filter without a logout section of its own: the default's applies
 }
 
 type CfgSpec struct {
@@ -58,50 +58,50 @@ type AnsSpec struct {
 	OmitAT    bool   `json:"omitAt"`
 	TokenType string `json:"tt"` // default Bearer
 	AudArray  bool   `json:"audArray"`
-	Extra     bool   `json:"extra"`     // extra members in the body
-	IatSkew   int    `json:"iatSkew"`   // seconds the provider's clock is ahead: iat and nbf of the ID token lie that far in the future
-	Big       bool   `json:"big"`       // a large (but compliant) answer: ID token with hundreds of groups, a 12 KB extra member
-	IDLife    int    `json:"idLife"`    // seconds, default 60
-	RfNonce   string `json:"rfNonce"`   // refresh: same (default) | absent | foreign
-	KeySet    string `json:"keySet"`    // "" | "k3": switch the configured key set before answering
-	SignKey   string `json:"signKey"`   // "" = a key of the addressed filter's configured set | "k1" | "k3": sign honestly-shaped tokens with this key
+	Extra     bool   `json:"extra"`   // extra members in the body
+	IatSkew   int    `json:"iatSkew"` // seconds the provider's clock is ahead: iat and nbf of the ID token lie that far in the future
+	Big       bool   `json:"big"`     // a large (but compliant) answer: ID token with hundreds of groups, a 12 KB extra member
+	IDLife    int    `json:"idLife"`  // seconds, default 60
+	RfNonce   string `json:"rfNonce"` // refresh: same (default) | absent | foreign
+	KeySet    string `json:"keySet"`  // "" | "k3": switch the configured key set before answering
+	SignKey   string `json:"signKey"` // "" = a key of the addressed filter's configured set | "k1" | "k3": sign honestly-shaped tokens with this key
 }
 
 // Directive is what a step hands to the pending gate of a check.
 type Directive struct {
-	Fault string   `json:"fault"` // none | before | after (store gates)
-	Ans   *AnsSpec `json:"ans"`   // IdP gates
-	Jwks  string   `json:"jwks"`  // ok | fail (key-source gates)
-	Cancel bool    `json:"cancel"` // the request's context is cancelled at this gate (Envoy's timeout fired, the client went away); the step itself proceeds
+	Fault  string   `json:"fault"`  // none | before | after (store gates)
+	Ans    *AnsSpec `json:"ans"`    // IdP gates
+	Jwks   string   `json:"jwks"`   // ok | fail (key-source gates)
+	Cancel bool     `json:"cancel"` // the request's context is cancelled at this gate (Envoy's timeout fired, the client went away); the step itself proceeds
 }
 
 // Step is one scenario step.
 type Step struct {
 	Op string `json:"op"` // start | step | finish | check | tick | authz | browse | keyset | secret
 
-	C        string   `json:"c"`        // check id (start/step/finish/check)
-	How      string   `json:"how"`      // tamper: dropCreated | epochCreated | garbageCreated | dropTokens
-	R        int      `json:"r"`        // replica (service instance) that receives the request, default 0
-	B        string   `json:"b"`        // browser id
-	F        string   `json:"f"`        // filter (chain) addressed
-	Kind     string   `json:"kind"`     // app | callback | logout
-	Cookie   string   `json:"cookie"`   // none | jar | sid:<k> | forged | raw:<value>
-	CookieAs string   `json:"cookieAs"` // send the cookie under this filter's cookie name (default F)
-	DecoySid string   `json:"decoySid"` // with decoy "before": the look-alike cookie carries this session id (sid:<k>) instead of a constant
-	Decoy    string   `json:"decoy"`    // "" | "before": a look-alike cookie (x<name>=forged) precedes the real one | "only": the value travels ONLY in a look-alike cookie
-	St       string   `json:"st"`       // callback: none | sid:<k> (state issued with k-th sid) | jar | bogus
-	Code     string   `json:"code"`     // callback: none | code:<k> | jar | bogus
-	QShape   string   `json:"qshape"`   // callback query shape
-	URL      int      `json:"url"`      // index into the URL pool (app requests)
-	Shape    string   `json:"shape"`    // request shape class (C15)
-	Dir      *Directive            `json:"dir"`  // step: directive for the pending gate
-	Ans      *AnsSpec              `json:"ans"`  // check/finish/browse: default IdP answer
-	Dirs     map[string]*Directive `json:"dirs"` // check: directive by gate index ("0","1",..)
-	D        int      `json:"d"`        // tick: seconds
-	Sid      int      `json:"sid"`      // authz: k-th issued session
-	MaxHops  int      `json:"maxHops"`  // browse
-	Expect   string   `json:"expect"`   // model's predicted outcome of the check (Layer B), optional
-	Value    string   `json:"value"`    // keyset / secret value
+	C        string                `json:"c"`        // check id (start/step/finish/check)
+	How      string                `json:"how"`      // tamper: dropCreated | epochCreated | garbageCreated | dropTokens
+	R        int                   `json:"r"`        // replica (service instance) that receives the request, default 0
+	B        string                `json:"b"`        // browser id
+	F        string                `json:"f"`        // filter (chain) addressed
+	Kind     string                `json:"kind"`     // app | callback | logout
+	Cookie   string                `json:"cookie"`   // none | jar | sid:<k> | forged | raw:<value>
+	CookieAs string                `json:"cookieAs"` // send the cookie under this filter's cookie name (default F)
+	DecoySid string                `json:"decoySid"` // with decoy "before": the look-alike cookie carries this session id (sid:<k>) instead of a constant
+	Decoy    string                `json:"decoy"`    // "" | "before": a look-alike cookie (x<name>=forged) precedes the real one | "only": the value travels ONLY in a look-alike cookie
+	St       string                `json:"st"`       // callback: none | sid:<k> (state issued with k-th sid) | jar | bogus
+	Code     string                `json:"code"`     // callback: none | code:<k> | jar | bogus
+	QShape   string                `json:"qshape"`   // callback query shape
+	URL      int                   `json:"url"`      // index into the URL pool (app requests)
+	Shape    string                `json:"shape"`    // request shape class (C15)
+	Dir      *Directive            `json:"dir"`      // step: directive for the pending gate
+	Ans      *AnsSpec              `json:"ans"`      // check/finish/browse: default IdP answer
+	Dirs     map[string]*Directive `json:"dirs"`     // check: directive by gate index ("0","1",..)
+	D        int                   `json:"d"`        // tick: seconds
+	Sid      int                   `json:"sid"`      // authz: k-th issued session
+	MaxHops  int                   `json:"maxHops"`  // browse
+	Expect   string                `json:"expect"`   // model's predicted outcome of the check (Layer B), optional
+	Value    string                `json:"value"`    // keyset / secret value
 }
 
 type Scenario struct {
